@@ -63,3 +63,14 @@ void SealAudit::on_wire_cbc_record(const void *ssl, const unsigned char *body, s
         fail("cbc_iv_repeated", dtls ? "dtls" : "tls", "two CBC records of one connection carry the same explicit IV block " + hex(body, 16));
     }
 }
+
+void SealAudit::on_wire_dtls_record(const void *ssl, unsigned epoch, uint64_t seq, const unsigned char *raw, size_t n) {
+    auto k = std::make_pair((uintptr_t) ssl, std::make_pair(epoch, seq));
+    uint64_t d = hash_bytes(raw, n);
+    counters["seal.dtls_wire_records"]++;
+    auto it = dtls_numbers.find(k);
+    if (it == dtls_numbers.end()) { dtls_numbers[k] = d; return; }
+    if (it->second == d) { counters["seal.dtls_wire_identical_repeat"]++; return; }     // a byte-for-byte retransmission is allowed
+    fail("seq_not_increasing", "dtls,record_number_reused", "two different protected DTLS records left one endpoint under the same epoch/sequence number " + std::to_string(epoch) + "/" + std::to_string(seq) +
+         " (the number is bound into the MAC / AEAD nonce)");
+}
